@@ -97,6 +97,7 @@ def plan_for(prop, tier):
                  "each world asking load(name), local_time_zone() and a default-constructed zone, then replayed with a different read chunk size; part random: random worlds of 1-6 ops; part faulted: random worlds with fopen errno faults by open index, "
                  "cookie read errors (EIO/EINTR, persistent or transient) by byte offset, failing seeks, FIFOs and chunk sizes 1..65536. Every world is non-trivial (it resolves at least one name); distinct = distinct (environment, ops, faults, chunk) hashes",
             stages=[
+                dict(kind="worker", name="before-main-worlds", variant="asan", part="premain", runs=-1, block=1, hash_mod=1, key_mod=1, extra=["--cold"], recheck_block=1),
                 dict(kind="worker", name="cross-product", variant="asan", part="cross", runs=-1, block=500, hash_mod=50, key_mod=1),
                 dict(kind="worker", name="random-worlds", variant="asan", part="random", runs=40000 if q else 2000000, block=1000, hash_mod=50, key_mod=1 if q else 16),
                 dict(kind="worker", name="faulted-worlds", variant="asan", part="faulted", runs=150000 if q else 6000000, block=1000, hash_mod=50, key_mod=1 if q else 16),
